@@ -393,7 +393,7 @@ func c04Stems(r *run.Run) {
 	}
 	counts = append(counts, 71, 72, 73, 95, 96)
 	r.Explore(explore.Config{Name: "C04.stems-masks"},
-		"stem hints: every count 0..50 and {71,72,73,95,96} split between horizontal and vertical, with a hint mask first / later / absent, counter masks (one, or three in a row), two hint masks in a row, glyph width equal / not equal to the default width",
+		"stem hints: every count 0..50 and {71,72,73,95,96} split between horizontal and vertical, edges that are 16.16 numbers or thirds, with a hint mask first / later / absent, counter masks (one, or three in a row), two hint masks in a row, glyph width equal / not equal to the default width",
 		func(c *explore.Ctx) {
 			nh := counts[c.Choose(len(counts), "hstems")]
 			nv := counts[c.Choose(len(counts), "vstems")]
@@ -408,11 +408,22 @@ func c04Stems(r *run.Run) {
 				w = 623
 			}
 			g := cff.NewGlyph("A", w)
+			// stem edges that are 16.16 numbers, or thirds (every edge is rounded once, and the rounding
+			// must not accumulate from edge to edge)
+			thirds := c.Bool("stem edges in thirds")
 			for i := 0; i < nh; i++ {
-				g.HStem = append(g.HStem, float64(10*i), float64(10*i+4))
+				if thirds {
+					g.HStem = append(g.HStem, float64(31*i)/3, float64(31*i+10)/3)
+				} else {
+					g.HStem = append(g.HStem, float64(10*i), float64(10*i+4))
+				}
 			}
 			for i := 0; i < nv; i++ {
-				g.VStem = append(g.VStem, float64(-300+7*i), float64(-300+7*i)+2.5)
+				if thirds {
+					g.VStem = append(g.VStem, -300+float64(22*i)/3, -300+float64(22*i+7)/3)
+				} else {
+					g.VStem = append(g.VStem, float64(-300+7*i), float64(-300+7*i)+2.5)
+				}
 			}
 			nb := (nh + nv + 7) / 8
 			mk := func(seed int) []float64 {
@@ -444,11 +455,11 @@ func c04Stems(r *run.Run) {
 				g.Cmds = append(g.Cmds, cff.GlyphOp{Op: cff.OpHintMask, Args: mk(5)})
 			}
 			g.LineTo(100, 100)
-			c.Sample(func() any { return map[string]any{"hstems": nh, "vstems": nv, "mask": mask, "own_width": ownWidth} })
+			c.Sample(func() any { return map[string]any{"hstems": nh, "vstems": nv, "mask": mask, "own_width": ownWidth, "thirds": thirds} })
 			if nh+nv > 0 {
 				c.Nontrivial()
 			}
-			c04Check(c, fmt.Sprintf("stems mask=%d", mask), []*cff.Glyph{cff.NewGlyph(".notdef", 500), g, cff.NewGlyph("B", 500)}, fmt.Sprintf("hstems=%d vstems=%d mask=%d width=%v", nh, nv, mask, w))
+			c04Check(c, fmt.Sprintf("stems mask=%d", mask), []*cff.Glyph{cff.NewGlyph(".notdef", 500), g, cff.NewGlyph("B", 500)}, fmt.Sprintf("hstems=%d vstems=%d mask=%d width=%v thirds=%v", nh, nv, mask, w, thirds))
 		})
 }
 
